@@ -219,6 +219,46 @@ func recvNamed(fn *ssa.Function, pkg, name string) bool {
 func (p *Program) Anchors() (*anchors, []string) {
 	a := &anchors{}
 	var missing []string
+	// several functions can have the signature of a role (a helper that hands
+	// its arguments on to the real one): the compiler is the one that calls
+	// itself, the emitter / patcher / constant pool the one that calls none of
+	// the others with that signature
+	cands := map[string][]*ssa.Function{}
+	calls := func(f, g *ssa.Function) bool {
+		for _, b := range f.Blocks {
+			for _, ins := range b.Instrs {
+				if cc := callOf(ins); cc != nil && cc.StaticCallee() == g {
+					return true
+				}
+			}
+		}
+		return false
+	}
+	pick := func(role string, recursive bool) *ssa.Function {
+		cs := cands[role]
+		sort.Slice(cs, func(i, j int) bool { return len(cs[i].Blocks) > len(cs[j].Blocks) })
+		for _, f := range cs {
+			if recursive {
+				if calls(f, f) {
+					return f
+				}
+				continue
+			}
+			leaf := true
+			for _, g := range cs {
+				if g != f && calls(f, g) {
+					leaf = false
+				}
+			}
+			if leaf {
+				return f
+			}
+		}
+		if len(cs) > 0 {
+			return cs[0]
+		}
+		return nil
+	}
 	for _, fn := range p.LibFns {
 		if fn.Parent() != nil {
 			continue
@@ -228,13 +268,13 @@ func (p *Program) Anchors() (*anchors, []string) {
 		case recvNamed(fn, "", "Eval"):
 			switch {
 			case len(ps) == 1 && isNamed(ps[0], "ast", "Node") && len(rs) == 1 && isErrorType(rs[0]):
-				a.compile = fn
+				cands["compile"] = append(cands["compile"], fn)
 			case len(ps) == 2 && isOpcodeType(ps[0]) && fn.Signature.Variadic() && len(rs) == 1:
-				a.emit = fn
+				cands["emit"] = append(cands["emit"], fn)
 			case len(ps) == 2 && len(rs) == 0 && isInt(ps[0]) && isInt(ps[1]):
-				a.changeOperand = fn
+				cands["changeOperand"] = append(cands["changeOperand"], fn)
 			case len(ps) == 1 && isObjectIface(ps[0]) && len(rs) == 1 && isInt(rs[0]):
-				a.addConstant = fn
+				cands["addConstant"] = append(cands["addConstant"], fn)
 			case fn.Name() == "Prepare":
 				a.prepare = fn
 			case fn.Name() == "Execute":
@@ -250,7 +290,9 @@ func (p *Program) Anchors() (*anchors, []string) {
 				a.vmRun = fn
 			case len(ps) == 1 && isOpcodeType(ps[0]) && len(rs) == 1 && isErrorType(rs[0]):
 				a.binop = fn
-			case len(ps) == 3 && isOpcodeType(ps[0]) && isObjectIface(ps[1]) && isObjectIface(ps[2]):
+			case len(ps) >= 3 && isOpcodeType(ps[0]) && isObjectIface(ps[1]) && isObjectIface(ps[2]):
+				// (operator, left, right) — possibly followed by the operands'
+				// values when the caller has already converted them
 				a.optTables = append(a.optTables, fn)
 			}
 		case recvNamed(fn, "lexer", "Lexer") && fn.Name() == "NextToken":
@@ -271,6 +313,10 @@ func (p *Program) Anchors() (*anchors, []string) {
 			}
 		}
 	}
+	a.compile = pick("compile", true)
+	a.emit = pick("emit", false)
+	a.changeOperand = pick("changeOperand", false)
+	a.addConstant = pick("addConstant", false)
 	// the dispatch loop may have been moved out of Run into a function of its
 	// own: the rules about handlers follow it there
 	a.vmEntry = a.vmRun
@@ -312,8 +358,8 @@ func (p *Program) Anchors() (*anchors, []string) {
 	chk(a.parseExpr, "Pratt loop: method of Parser with signature (int) ast.Expression")
 	chk(a.parse, "(*parser.Parser).Parse")
 	chk(a.binop, "binary dispatcher: method of VM with signature (code.Opcode) error")
-	if len(a.optTables) < 5 {
-		missing = append(missing, fmt.Sprintf("operator tables: methods of VM with signature (code.Opcode, object.Object, object.Object): found %d, want >= 5", len(a.optTables)))
+	if len(a.optTables) < 3 {
+		missing = append(missing, fmt.Sprintf("operator tables: methods of VM with signature (code.Opcode, object.Object, object.Object …): found %d, want >= 3", len(a.optTables)))
 	}
 	sort.Slice(a.optTables, func(i, j int) bool { return a.optTables[i].Name() < a.optTables[j].Name() })
 	return a, missing
